@@ -106,15 +106,16 @@ func vrfModelReplace2(s string, a, b byte, to string) string {
 	return out
 }
 
-// stub for swag.ToJSONName: the words of s (separated by blanks) joined, every word but the first capitalised (ASCII).
-// The real mangler also lower-cases the first word and upper-cases initialisms; the harnesses that reach it only
-// depend on the result being some name (structure, not spelling, is asserted).
+// stub for swag.ToJSONName: the words of s (maximal runs of ASCII letters, digits and non-ASCII bytes; every other
+// byte separates words, as in the real mangler) joined, every word but the first capitalised (ASCII). The real mangler
+// also lower-cases the first word and upper-cases initialisms; the harnesses that reach it only depend on the result
+// being some separator-free name (structure, not spelling, is asserted).
 func vrfModelJSONName(s string) string {
 	out := ""
 	up := false
 	for i := 0; i < len(s); i++ {
 		c := s[i]
-		if c == ' ' {
+		if !(c >= 'a' && c <= 'z' || c >= 'A' && c <= 'Z' || c >= '0' && c <= '9' || c >= 0x80) {
 			up = out != ""
 			continue
 		}
